@@ -11,8 +11,16 @@ import vlib
 PID = "C13"
 
 
+CONN_MODES = ["s", "x", "y", "sx", "xs", "ys", "xy", "ss", "yx"]
+
+
 def gen_scenario(rnd, sid, ndev, nsteps):
     steps = []
+    for d in range(ndev):
+        # some devices' first connections go wrong (SetReaderConfig rejected, connection dropped
+        # after the connection event / on SetReaderConfig) before the one that works
+        if rnd.random() < 0.35:
+            steps.append("%d+%s" % (d, rnd.choice(CONN_MODES)))
     for _ in range(nsteps):
         d = rnd.randrange(ndev)
         x = rnd.random()
@@ -24,8 +32,11 @@ def gen_scenario(rnd, sid, ndev, nsteps):
             steps.append("%dr%d" % (d, rnd.randrange(3)))
         elif x < 0.80:
             steps.append("%de%d" % (d, rnd.randrange(3)))
-        elif x < 0.88:
+        elif x < 0.87:
             steps.append("%dK" % d)
+        elif x < 0.93:
+            # a request whose deadline passes while the reader answers slowly / in pieces / never
+            steps.append("%dT%d" % (d, rnd.randrange(5)))
         else:
             steps.append("%dC%d" % (d, rnd.randrange(5)))
     return "%d %d %d %s" % (sid, ndev, rnd.getrandbits(30), " ".join(steps))
@@ -36,7 +47,13 @@ def expected_tokens(scn):
     sending device's name and the type's resource, plus each device's connection event"""
     f = scn.split()
     ndev = int(f[1])
-    exp = ["%d:REN:%d" % (d, 1000 + d) for d in range(ndev)]
+    exp = []
+    for d in range(ndev):
+        modes = ""
+        for st in f[3:]:
+            if st[1] == "+" and int(st[0]) == d:
+                modes = st[2:]
+        exp += ["%d:REN:%d" % (d, 2000 + 100 * d + n) for n in range(len(modes) + 1)]
     for i, st in enumerate(f[3:]):
         if st[1] in "RM":
             exp.append("%s:RO:%d" % (st[0], i))
@@ -56,6 +73,15 @@ def judge(scn, line):
     for t in exp:
         d, r, i = t.split(":")
         where[i] = (d, r)
+    # connection events: exactly those the scripted readers sent (a device may reconnect more
+    # often than planned; every connection's event that was received must be published once)
+    m = re.search(r"sent=(\S*)", line)
+    if m:
+        for i in [k for k in where if int(k) >= 2000]:
+            del where[i]
+        for ds in filter(None, m.group(1).split(",")):
+            d, i = ds.split(":")
+            where[i] = (d, "REN")
     seen = collections.Counter()
     for t in toks:
         if t.startswith("!unmatched"):
@@ -112,10 +138,16 @@ def run(tier, seed, replay=None):
     else:
         rnd = random.Random(seed)
         scns = ["0 2 11 0R1 1E1 0r0 1K 0C0 1E4 0R2 1e1 0E6 1R3",
+                "3 2 14 0+s 1+x 0R1 1R1 0T1 0R2 1T4 1E0 0T2 0E2 1T3 1R3 0T0 0R4",
+                "4 3 15 0+ys 1+xy 2+sx 0E1 1R3 2R5 0T4 1T1 2T2 0R3 1E6 2E1 0K 1K 2C0 0R1 1R2 2R6",
                 "2 2 13 0R1 1M 0C0 0R2 1L 1R3 0E0 1R4 0K 1E1",
                 "1 3 12 " + " ".join("%d%s%d" % (d, k, v) for v in range(7) for k in "RE" for d in range(3))]
         n = 1500 if thorough else 300
-        for sid in range(3, n):
+        if thorough:
+            # the deadlines of the service itself (20 s): a command through the driver whose reply comes
+            # in two pieces 21 s apart, and a SetReaderConfig that is never answered
+            scns += ["5 2 16 0R1 1R1 0T9 1E0 0R2 0E3 1R4", "6 2 17 0+w 0R1 1R1 0E1 1E2 0R3"]
+        for sid in range(7, n):
             ndev = rnd.choice([2, 2, 3, 3, 1])
             nsteps = rnd.choice([8, 20, 40, 80] + ([200, 400] if thorough else []))
             scn = gen_scenario(rnd, sid, ndev, nsteps)
@@ -125,21 +157,105 @@ def run(tier, seed, replay=None):
                 scn = " ".join(f)
             scns.append(scn)
 
-    def execute(batch, tag=""):
-        text = "\n".join(batch) + "\n"
-        rc, lines, glog = vlib.run_harness(exe, "TestVerifC13", text, timeout=1500, tag=tag)
-        orc, oout = vlib.run_oracle("c13", text)
-        return rc, lines, glog, oout.split("\n")
+    crash_budget = [12]
+    crashes_pinned = [0]
 
-    rc, lines, glog, olines = execute(scns)
-    if rc != 0 or len(lines) != len(scns):
-        res.violation("harness-run", "Go harness failed (rc=%s, %d/%d answers): %s" % (rc, len(lines), len(scns), glog[-1500:]),
-                      dict(kind="harness", log=glog[-3000:]), False)
-        return res.finish()
+    def run_proc(batch, tag):
+        """one worker process; returns (answers by position or None, positions started but not finished, rc, log)"""
+        rc, raw, glog = vlib.run_harness(exe, "TestVerifC13", "\n".join(batch) + "\n", timeout=1500, tag=tag)
+        ans, started = [None] * len(batch), set()
+        for l in raw:
+            if l.startswith("S "):
+                started.add(int(l.split()[1]))
+            elif l.startswith("R "):
+                _, i, a = l.split(" ", 2)
+                ans[int(i)] = a
+                started.discard(int(i))
+        return ans, started, rc, glog
+
+    def crash_report(scn, glog):
+        m = re.search(r"(panic: [^\n]*|fatal error: [^\n]*)", glog)
+        what = m.group(1) if m else "worker process ended (rc != 0) without an answer"
+        fn = re.search(r"\n(?:github.com/edgexfoundry/device-rfid-llrp-go/)?([\w/.()*]+)\(.*\n\t/.*(?:internal|pkg)/", glog)
+        sig = "process-crash:" + (fn.group(1).split("/")[-1] if fn else scn[:60])
+        res.violation(sig, "scenario '%s' takes the whole service process down: %s" % (scn[:300], what[:300]),
+                      dict(kind="scenario", scenario=scn, scenarios=[scn], crash=what, log_tail=glog[-2500:], clause="process-crash"))
+
+    def execute(batch, tag=""):
+        """answers for every scenario; a crash of the worker is pinned on the scenario(s) that
+        crash when run alone, the others are run again"""
+        answers = [None] * len(batch)
+        todo = list(range(len(batch)))
+        rnd_ = 0
+        while todo:
+            rnd_ += 1
+            ans, inflight, rc, glog = run_proc([batch[i] for i in todo], "%s_p%d" % (tag, rnd_))
+            for k, i in enumerate(todo):
+                if ans[k] is not None:
+                    answers[i] = ans[k]
+            left = [i for i in todo if answers[i] is None]
+            if not left:
+                break
+            if rc == 0 and not inflight:
+                for i in left:
+                    answers[i] = "!noanswer"
+                break
+            # the process died: try the scenarios that were running, each alone
+            culprits = 0
+            for k in sorted(inflight):
+                i = todo[k]
+                if crash_budget[0] <= 0:
+                    answers[i] = "!crash-not-examined"
+                    continue
+                crash_budget[0] -= 1
+                a1, _, rc1, glog1 = run_proc([batch[i]], "%s_c%d" % (tag, i))
+                if a1[0] is not None:
+                    answers[i] = a1[0]
+                else:
+                    answers[i] = "!crash"
+                    culprits += 1
+                    crash_report(batch[i], glog1)
+            unexamined = [todo[k] for k in inflight if answers[todo[k]] == "!crash-not-examined"]
+            if culprits == 0 and inflight and not crashes_pinned[0]:
+                # nothing crashes alone (or could be examined): blame the group
+                res.violation("process-crash:group", "the worker process died (rc=%s) while running %s; %s: %s"
+                              % (rc, [batch[todo[k]][:80] for k in sorted(inflight)][:8],
+                                 "not all of them could be run alone" if unexamined else "none of them crashes alone", glog[-600:]),
+                              dict(kind="scenario", scenarios=[batch[todo[k]] for k in sorted(inflight)], log_tail=glog[-2500:]), False)
+                for k in inflight:
+                    answers[todo[k]] = "!crash"
+            crashes_pinned[0] += culprits
+            if crash_budget[0] <= 0:
+                # a tree that keeps crashing: what has been pinned is enough, leave the rest
+                for i in todo:
+                    if answers[i] is None:
+                        answers[i] = "!crash-not-examined"
+                break
+            todo = [i for i in todo if answers[i] is None]
+            if rnd_ > 8:
+                for i in todo:
+                    answers[i] = "!noanswer"
+                break
+        orc, oout = vlib.run_oracle("c13", "\n".join(batch) + "\n")
+        return 0, answers, "", oout.split("\n")
+
+    # a first part of the scenarios decides whether the rest is worth running: a tree on which
+    # many of them already fail is reported from those (each failing scenario costs seconds)
+    head = 48 if not replay else len(scns)
+    rc, lines, glog, olines = execute(scns[:head], tag="_a")
+    early = sum(1 for s_, g_ in zip(scns, lines) if g_.startswith("!crash") or judge(s_, g_))
+    if early > 8:
+        res.notes.append("%d of the first %d scenarios fail: the remaining %d were not run" % (early, head, len(scns) - head))
+        scns = scns[:head]
+    elif len(scns) > head:
+        rc, l2_, glog, o2_ = execute(scns[head:], tag="_b")
+        lines, olines = lines + l2_, olines[:head] + o2_
 
     def model_differs(g, o):
-        gt = sorted(t for t in g.split(" | ")[0].split()[1:] if not t.startswith("!badgen"))
         ot = sorted(o.split(" | ")[0].split()[1:])
+        planned = set(ot)
+        gt = sorted(t for t in g.split(" | ")[0].split()[1:] if not t.startswith("!badgen")
+                    and not (re.match(r"^\d:REN:2\d\d\d$", t) and t not in planned))
         return gt != ot or "expected_ok=1" not in o or "pending=0" not in o
 
     evals = msgs = 0
@@ -152,7 +268,7 @@ def run(tier, seed, replay=None):
         kinds = collections.Counter(st[1] for st in f[3:])
         dist.update({"devices=%s" % f[1]: 1})
         dist.update(kinds)
-        msgs += kinds["R"] + kinds["E"] + kinds["r"] + kinds["e"] + kinds["M"] + kinds["L"] + int(f[1])
+        msgs += kinds["R"] + kinds["E"] + kinds["r"] + kinds["e"] + kinds["M"] + kinds["L"] + int(f[1]) + sum(len(st) - 2 for st in f[3:] if st[1] == "+")
         if int(f[1]) >= 2 and kinds["R"] + kinds["E"] >= 5 and (kinds["C"] or kinds["K"]):
             nontriv.add(" ".join(f[1:]))
         if len(samples) < 3 and 8 <= len(f) <= 30:
@@ -162,6 +278,8 @@ def run(tier, seed, replay=None):
         m = re.search(r"acks=(\d+)/(\d+) cmds=(\d+)/(\d+)", g)
         if m and (m.group(1) != m.group(2) or m.group(3) != m.group(4)):
             notes["acks-or-commands-incomplete"] += 1
+        if g in ("!crash", "!crash-not-examined"):
+            continue
         if judge(s, g) or model_differs(g, o):
             suspects.append(s)
 
@@ -172,6 +290,8 @@ def run(tier, seed, replay=None):
         rc2, l2, glog2, o2 = execute(suspects, tag="_r")
         still = []
         for s, g, o in zip(suspects, l2, o2):
+            if g in ("!crash", "!crash-not-examined"):
+                continue
             j = judge(s, g)
             if j or model_differs(g, o):
                 still.append(s)
@@ -197,8 +317,9 @@ def run(tier, seed, replay=None):
 
     res.coverage.update(
         evaluations=evals, distinct_nontrivial=len(nontriv), messages_sent=msgs,
-        rule="scenario = 1-3 devices x random steps (ROAccessReport 7 content shapes, ReaderEventNotification 7 shapes incl. uptime-stamped and a mid-stream "
-             "connection success, 3+3 undecodable payloads, keep-alives, 5 kinds of commands) + each device's connection event; devices send concurrently, "
+        rule="scenario = 1-3 devices, for a third of them first connections that fail (SetReaderConfig rejected / dropped after the connection event / dropped on SetReaderConfig), "
+             "x random steps (requests whose deadline passes while the reader answers in pieces, late or never; ROAccessReport 7 content shapes, ReaderEventNotification 7 shapes incl. uptime-stamped and a mid-stream "
+             "connection success, 3+3 undecodable payloads, keep-alives, 5 kinds of commands) + the connection event of every connection; devices send concurrently, "
              "commands are answered 8 ms late; distinct by (devices, seed, steps); non-trivial iff >= 2 devices, >= 5 decodable messages and at least one command or keep-alive",
         samples=samples, input_distribution=dict(dist), traces_validated_against_impl=evals,
         differing_on_first_run=n_first, trusted_base=res.assumptions)
